@@ -33,5 +33,8 @@ def run(project, rep):
     rep.run(S.s_r8_buildable, schema, rep)
     rep.run(S.s_r9_own_descriptor, schema, rep)
     rep.run(S.s_r10_per_class_tables, schema, rep)
+    from .. import rules_purity as E
+    rep.rule("S-R11", "every exclusivity group stays in force: the class-level tables are re-iterable (E-R7)")
+    rep.run(E.e_r7_reiterable_class_tables, project, rep)
     from .. import rules_values as V
     rep.run(V.v_r8_token_tables, project, rep)
